@@ -352,7 +352,6 @@ func init() {
 		if !up {
 			return Obs{"error": "sasl server did not start"}
 		}
-		sentinel := []byte("VERSION\t1\t2\n")
 		var rs []interface{}
 		for _, c := range c04Cases(op) {
 			a.set(c.str("beh"))
@@ -363,24 +362,28 @@ func init() {
 				rs = append(rs, r)
 				continue
 			}
-			_, _ = conn.Write([]byte(c.str("line") + "\nVERSION\t1\n"))
+			// one request line, then half-close: the service answers, sees EOF
+			// and closes, so everything it wrote is read up to EOF
+			_, _ = conn.Write([]byte(c.str("line") + "\n"))
+			if uc, ok := conn.(*net.UnixConn); ok {
+				_ = uc.CloseWrite()
+			}
 			deadline := time.Now().Add(time.Duration(c.num("timeout_ms", 4000)) * time.Millisecond)
 			var got []byte
 			tmp := make([]byte, 65536)
-			how := "ok"
-			for !bytes.HasSuffix(got, sentinel) {
+			how := "eof"
+			for {
 				_ = conn.SetReadDeadline(deadline)
 				n, err := conn.Read(tmp)
 				got = append(got, tmp[:n]...)
 				if err != nil {
-					how = "eof-or-timeout"
+					if err != io.EOF {
+						how = "timeout-or-error"
+					}
 					break
 				}
 			}
 			_ = conn.Close()
-			if bytes.HasSuffix(got, sentinel) {
-				got = got[:len(got)-len(sentinel)]
-			}
 			r["wrote"] = b2s(got)
 			r["how"] = how
 			r["reqs"] = a.take()
